@@ -444,7 +444,34 @@ func (rn *runner) jsonFile(src []byte) (hcl.Body, bool) {
 		}
 	}
 	rn.same(entry, "diagnostics", diagSig(d1), diagSig(d2))
+	if !d1.HasErrors() {
+		rn.jsonTrailing(entry, src, func(b []byte) hcl.Diagnostics { _, d := hcljson.Parse(b, "f.json"); return d })
+	}
 	return f1.Body, !d1.HasErrors()
+}
+
+// jsonTrailing: a text that one of the JSON entry points accepts is a complete JSON value; the same text followed
+// by one more token is not a JSON text, and what follows the first value would be dropped silently, so the result
+// is unusable as a whole and an error must say so — whatever else (warnings included) was said about the value.
+var jsonSuffixes = []string{" ]", " {}", " true", " 0", " \"x\"", " ,", " :", "\n[1]"}
+
+func (rn *runner) jsonTrailing(entry string, src []byte, parse func([]byte) hcl.Diagnostics) {
+	if rn.huge || len(src) > 4096 {
+		return
+	}
+	suf := jsonSuffixes[int(hash64(src)%uint64(len(jsonSuffixes)))]
+	for _, sfx := range []string{suf, " ]"} {
+		ext := append(append([]byte{}, src...), sfx...)
+		var d hcl.Diagnostics
+		if !rn.call(entry, func() { d = parse(ext) }) {
+			return
+		}
+		rn.cx.Res.Count("json-trailing-token-checked")
+		if !d.HasErrors() {
+			rn.fail("unusable-without-error:"+entry+":trailing-data", "a text accepted without error, followed by one more token ("+strings.TrimSpace(sfx)+"), is accepted without error too: the trailing data is dropped silently", diagText(d))
+			return
+		}
+	}
 }
 
 func (rn *runner) jsonExpr(src []byte) (hcl.Expression, bool) {
@@ -486,6 +513,9 @@ func (rn *runner) jsonExpr(src []byte) (hcl.Expression, bool) {
 	}
 	rn.same(entry, "result", s1, s2)
 	rn.same(entry, "diagnostics", diagSig(d1), diagSig(d2))
+	if !d1.HasErrors() {
+		rn.jsonTrailing(entry, src, func(b []byte) hcl.Diagnostics { _, d := hcljson.ParseExpression(b, "f.json"); return d })
+	}
 	return e1, !d1.HasErrors()
 }
 
